@@ -703,7 +703,16 @@ struct __gmp_binary_divides
   static void eval(mpz_ptr z, mpir_si l, mpz_srcptr w)
   {
     if (mpz_fits_si_p(w))
-      mpz_set_si(z, l / mpz_get_si(w));
+      {
+        mpir_si d = mpz_get_si(w);
+        if (d == -1)	/* LONG_MIN / -1 does not fit a long (SIGFPE on x86) */
+          {
+            mpz_set_si(z, l);
+            mpz_neg(z, z);
+          }
+        else
+          mpz_set_si(z, l / d);
+      }
     else
       {
         /* if w is bigger than a long then the quotient must be zero, unless
@@ -847,7 +856,11 @@ struct __gmp_binary_modulus
   static void eval(mpz_ptr z, mpir_si l, mpz_srcptr w)
   {
     if (mpz_fits_si_p(w))
-      mpz_set_si(z, l % mpz_get_si(w));
+      {
+        mpir_si d = mpz_get_si(w);
+        /* LONG_MIN % -1 traps like LONG_MIN / -1 although the result is 0 */
+        mpz_set_si(z, d == -1 ? 0 : l % d);
+      }
     else
       {
         /* if w is bigger than a long then the remainder is l unchanged,
